@@ -30,7 +30,7 @@ def check_leak(e):
     behave differently from a concrete run, so the path must not count as explored: turn it into a loud Escape (-> inconclusive)."""
     if ENG is None:
         return
-    if isinstance(e, (TypeError, AttributeError, ValueError)):
+    if isinstance(e, Exception):
         msg = str(e)
         for n in _PROXY_NAMES:
             if n in msg:
